@@ -378,6 +378,9 @@ void Interpret::interp(ASTNode& n) {
         }
     } catch (ApiException const &e) {
         notify_formatted(true, "%s", e.what());
+    } catch (std::logic_error const & e) {
+        // e.g. a model requested for a theory whose solver cannot produce one
+        notify_formatted(true, "%s", e.what());
     }
 }
 
